@@ -15,6 +15,8 @@ pub enum Eol {
     Lf,
     CrLf,
     Cr,
+    /// a different line ending on every line
+    Mixed,
 }
 
 #[derive(Clone, Copy, Debug, PartialEq, Eq, Serialize, Deserialize)]
@@ -37,6 +39,10 @@ pub struct Layout {
     /// extra blanks around tokens
     pub spacey: bool,
     pub seed: u64,
+    /// load the program through the file loader (parse_main_file) instead of
+    /// parse_main_str
+    #[serde(default)]
+    pub via_file: bool,
 }
 
 impl Layout {
@@ -51,14 +57,16 @@ impl Layout {
             indent: 2,
             spacey: false,
             seed: 0,
+            via_file: false,
         }
     }
 
     pub fn random(rng: &mut Rng, allow_cr: bool) -> Self {
-        let eol = match rng.below(if allow_cr { 5 } else { 4 }) {
+        let eol = match rng.below(if allow_cr { 6 } else { 4 }) {
             0 | 1 => Eol::Lf,
             2 | 3 => Eol::CrLf,
-            _ => Eol::Cr,
+            4 => Eol::Cr,
+            _ => Eol::Mixed,
         };
         Layout {
             eol,
@@ -70,6 +78,7 @@ impl Layout {
             indent: rng.below(5),
             spacey: rng.chance(1, 4),
             seed: rng.next_u64(),
+            via_file: rng.chance(1, 3),
         }
     }
 }
@@ -342,6 +351,17 @@ impl<'a> Emitter<'a> {
                         format!("{} \"x\"; 1 / {}", self.kw("PRINT"), z)
                     }
                     FailKind::BadHandle => format!("{} 300", self.kw("CLOSE")),
+                    FailKind::DivZeroNestedArgs => {
+                        let f = self.ident("FI%");
+                        format!("{} = {}(({}((1 / {}))))", q, f, f, z)
+                    }
+                    FailKind::DivZeroBuiltInArgs => format!(
+                        "{} = {}({}(1 / {}))",
+                        q,
+                        self.kw("LEN"),
+                        self.kw("STR$"),
+                        z
+                    ),
                 }
             }
             StmtKind::Open {
@@ -645,6 +665,18 @@ impl<'a> Emitter<'a> {
     }
 }
 
+fn uses_fail(sc: &Scenario, kind: FailKind) -> bool {
+    let mut found = false;
+    sc.for_each(&mut |s| {
+        if let StmtKind::Fail(k) = &s.kind {
+            if *k == kind {
+                found = true;
+            }
+        }
+    });
+    found
+}
+
 fn uses_subscript(list: &[Stmt]) -> bool {
     let mut found = false;
     fn walk(list: &[Stmt], found: &mut bool) {
@@ -698,19 +730,41 @@ pub fn emit(sc: &Scenario, layout: &Layout) -> Emitted {
         let t = format!("{} {}", e.kw("END"), e.kw(head));
         e.line(0, &t);
     }
+    if uses_fail(sc, FailKind::DivZeroNestedArgs) {
+        // identity function used by the nested-argument failure
+        let t = format!("{} {} ({})", e.kw("FUNCTION"), e.ident("FI%"), e.ident("P1%"));
+        e.line(0, &t);
+        let t = format!("{} = {}", e.ident("FI%"), e.ident("P1%"));
+        e.line(1, &t);
+        let t = format!("{} {}", e.kw("END"), e.kw("FUNCTION"));
+        e.line(0, &t);
+    }
     if !e.cur.is_empty() {
         e.newline();
     }
-    let eol = match layout.eol {
-        Eol::Lf => "\n",
-        Eol::CrLf => "\r\n",
-        Eol::Cr => "\r",
-    };
     let mut text = String::new();
-    for l in &e.lines {
+    let mut prev_cr = false;
+    let lines = std::mem::take(&mut e.lines);
+    for l in &lines {
+        let eol = match layout.eol {
+            Eol::Lf => "\n",
+            Eol::CrLf => "\r\n",
+            Eol::Cr => "\r",
+            Eol::Mixed => {
+                // an empty line after a CR-terminated line must not end in a bare LF:
+                // the two bytes would read as one CR LF
+                if prev_cr && l.is_empty() {
+                    *e.rng.pick(&["\r", "\r\n"])
+                } else {
+                    *e.rng.pick(&["\n", "\r\n", "\r"])
+                }
+            }
+        };
+        prev_cr = eol == "\r";
         text.push_str(l);
         text.push_str(eol);
     }
+    e.lines = lines;
     e.out.rows = e.lines.len() as u32;
     e.out.text = text;
     e.out
